@@ -1,7 +1,8 @@
 """C08 half = IEEE 754 binary16: exhaustive enumeration of conversions, + - * /, fma (alphabet), sqrt, comparisons,
 classification, sign operations and hash of the real implementation, judged by the exact integer reference
 refs/C08_half_ref.hpp; the software conversion path and the F16C path are built separately and compared bit for bit
-(also on a cast family of finite double / long double / integer sources whose value is not judged); the dynamic
+(also on a cast family of finite double / long double / integer sources whose value is not judged); long double sources (the generic
+float2half path) are judged against exact nearest-even rounding on a neighbourhood alphabet in ulps of the 64-bit significand; the dynamic
 floating-point environment (rounding direction, MXCSR.DAZ / MXCSR.FTZ) is a dimension of the enumeration."""
 import os
 import shutil
@@ -22,6 +23,8 @@ MXCSR_MODES = ("DAZ", "FTZ", "DAZ+FTZ")
 # streams whose operand is a 64-bit pattern (double bits / two's complement integer) instead of half bit patterns
 A64_STREAMS = ("double2half_cast", "double2half_cast_rn", "double2half_ctor", "double2half_assign", "longdouble2half_cast",
                "int2half_cast", "int2half_ctor", "longlong2half_cast")
+# streams of the long double source-type family: the operand is a sign/exponent word plus a 64-bit significand (x87 80-bit format)
+LD_STREAMS = ("ld2half_cast", "ld2half_cast_rn", "ld2half_literal", "ld2half_ctor", "ld2half_assign", "ld2half_mul1")
 CLASSIFY_FNS = ("isfinite", "isinf", "isnan", "isnormal", "signbit", "fpclassify")
 
 
@@ -70,6 +73,13 @@ def plan(tier):
     cs = "t" if thorough else "q"
     n = 16 if thorough else 4
     jobs += [("casts-%d" % k, ["--mode", "casts", "--set", cs, "--shard", str(k), str(n)], both) for k in range(n)]
+    # 1b'. source-type family: long double sources (generic float2half path) around every binary16 value and rounding midpoint in ulps
+    #      of the 64-bit significand, JUDGED against exact nearest-even rounding of the long double's own bit pattern; every environment
+    n = 16 if thorough else 4
+    jobs += [("srcty-%d" % k, ["--mode", "srcty", "--set", cs, "--shard", str(k), str(n)], both) for k in range(n)]
+    jobs += [("san-srcty", ["--mode", "srcty", "--set", "s"], ("san",))]
+    jobs += [("srcty-s@%s" % m, ["--fenv", m, "--mode", "srcty", "--set", "s"], rm) for m in FENV_MODES]
+    jobs += [("srcty-s@%s" % m, ["--fenv", m, "--mode", "srcty", "--set", "s"], both) for m in MXCSR_MODES]
     jobs += [("f2hb", ["--mode", "f2hb"], both), ("san-casts", ["--mode", "casts", "--set", "s"], ("san",)), ("san-f2hb", ["--mode", "f2hb"], ("san",))]
     n = 4
     for m in FENV_MODES:
@@ -256,7 +266,10 @@ def locate_path_difference(ctx, bins, args, stream, sub):
             raise vlib.HarnessError("could not map index %d of stream %s back to its operands" % (idx, stream))
         n = max(1, int(nth[0]["n"]))
         ops = [nth[0]["a"], nth[0]["b"], nth[0]["c"]][:n]
-        if stream in A64_STREAMS:
+        if stream in LD_STREAMS:
+            ops = ["0x%04x" % (int(nth[0]["a"], 16) & 0xFFFF), nth[0]["a64"]]
+            cls = "long-double"
+        elif stream in A64_STREAMS:
             ops = [nth[0]["a64"]]
             cls = dclass(int(ops[0], 16)) if "double" in stream else "integer"
         elif stream.startswith("float2half"):
@@ -381,7 +394,7 @@ def run(ctx):
                          b, ctx.stats.get("info_double2half_cast_differs_from_single_rounding_" + b, 0), n, ctx.stats.get("info_double2half_cast_rn_differs_from_single_rounding_" + b, 0),
                          ctx.stats.get("info_double2half_ctor_differs_from_single_rounding_" + b, 0), ctx.stats.get("info_double2half_assign_differs_from_single_rounding_" + b, 0),
                          ctx.stats.get("info_longdouble2half_cast_differs_from_single_rounding_" + b, 0), ctx.stats.get("info_longdouble2half_cast_finite_sources_" + b, 0)))
-    order = ["float2half", "pair", "fma", "sqrt", "nanfam", "mixed", "casts"]
+    order = ["float2half", "pair", "fma", "sqrt", "nanfam", "mixed", "casts", "srcty"]
     i = 0
     while len(ctx.samples) < 12 and any(samples.get(k) for k in order):
         k = order[i % len(order)]
@@ -408,6 +421,15 @@ def run(ctx):
            "around every anchor the doubles anchor +- k double-ulps for k = 0, 2^j-1, 2^j, 2^j+1 (j = 0..43: every single discarded-bit position, the half's guard bit 41 and the float's guard bit 28 included), both signs - 32.6 million doubles that are not floats; ")
         + "plus sign x every finite double exponent field (0..2046) x 27 mantissa patterns; each through half_cast<half>(double), half_cast<half,round_to_nearest>(double), half(double) and operator=(double); half_cast<half>(long double) on every anchor +- {0, 1, 2^28, 2^32} ulps and the exponent sweep; "
         "half_cast<half>(int), half(int), half_cast<half>(long long) on every int in [-65600, 65600] and +-(2^k + {-1,0,1}), k = 17..62; half_cast<int>, half_cast<long long>, half_cast<long double> on ALL 2^16 halves (streams of the 2^16-functions). "
+        "Source-type family (long double sources, JUDGED - the generic routine float2half_impl(T,...) is taken by every floating source type other than float and double; long doubles are built from bit patterns: sign, 15-bit exponent field, 64-bit significand): "
+        "the same 63489 anchors as exact long doubles; around every anchor the long doubles anchor +- k ulps of the 64-bit significand, k = 0 and 2^j-1, 2^j, 2^j+1 for "
+        + ("j = 0..61" if thorough else "j in {0..13, 30..33, 38..42, 50..53} (below and at the 53-bit boundary 2^10/2^11, the 32-bit word boundary, the 24-bit boundary 2^39/2^40, the binary16 guard bit 2^52)")
+        + ", both signs; plus sign x EVERY long double exponent field 1..32766 x 10 boundary significands, the long double subnormals, infinities and 8 NaN encodings per sign. "
+        "half_cast<half>(long double) on all of them, half_cast<half,round_to_nearest>(long double) and operator\"\"_h(long double) on the offsets {0, 1, 2^10, 2^11, 2^39, 2^40, 2^52} and the sweep: expected = ONE rounding to nearest-even of the exact value "
+        "(the long double's bit pattern decoded to integer significand x 2^e, rounded by the integer reference; confirmed on every case by the order definition: |x| lies between the two rounding midpoints next to the expected half - exact long double comparisons against a table of the 31744 midpoints - and on a midpoint only if the expected half is even); "
+        "half(long double) on all of them, operator=(long double) and long double * half(1) on the thin offsets: expected = the documented route through static_cast<float> (nearest-even to 24 bits, then to binary16; judged in the default environment and under the MXCSR flavours, "
+        "under a directed dynamic rounding mode static_cast<float> follows the mode by the language rules and these three only take part in the sw-vs-F16C comparison); NaN -> NaN with the sign kept, infinity -> that infinity. "
+        "Software, F16C and sanitizer build (the latter and the six non-default environments on the anchors of A512 and the exponent fields 16343..16413). "
         "Float boundary alphabet FB (sign x every float exponent field x {0, single bits, bit pairs, runs of ones, all ones minus one bit} = 173 568 floats): constructor, operator= and half_cast<half>(float), judged against the reference. "
         "MXCSR flavours (owned by the harness like the rounding direction; default builds): with DAZ, FTZ and DAZ+FTZ set once per shard through _mm_setcsr (verified to be in effect on float and double arithmetic, and verified to be unchanged at the end), "
         "every 2^16-function, the NaN/infinity family, the cast family, FB and the mixed-operand family on "
@@ -422,13 +444,14 @@ def run(ctx):
         "the exact integer reference refs/C08_half_ref.hpp is trusted; it is cross-checked on every run against double arithmetic (exact for + - *, innocuous double rounding for / and sqrt, TwoSum + round-to-odd for fma), against an ldexp construction for conversions, and - through the F16C build - against the hardware conversion on all 2^32 floats",
         "NaN results are compared as 'is a NaN' (payload and, except for unary minus/fabs/copysign, sign of a NaN result are not judged); the software half->float path keeps signalling NaNs signalling while the hardware quiets them - reported as a note, not a violation",
         "isnormal and fpclassify are judged by the binary16 class of the operand (a subnormal half is a normal float, so the float functions cannot be the oracle there); isfinite/isinf/isnan/signbit agree with both",
+        "long double -> half is judged (statement: 'converting any float to half rounds to nearest-even', anchor 'float2half (float, double, generic)'): single rounding for half_cast / the _h literal operator, the documented composition through float for the converting constructor, operator= and the mixed operators; integer sources (int2half) stay unjudged - the statement does not promise them",
         "double->half: the VALUE is judged only on the NaN/infinity boundary family (NaN-to-NaN with the sign kept, infinity preserved; also for long double sources); the ROUNDING of finite doubles and integer<->half conversions is not judged against a reference - the statement does not claim it and the converting constructor documents double rounding through float - "
         "but every conversion entry point must give the same bits in the software and the F16C build (the statement's last clause), which is what the cast family checks; agreement with single correct rounding is reported as a note",
         "MXCSR.DAZ / MXCSR.FTZ are treated like the rounding direction: process state that a conforming caller may have inherited (crtfastmath.o of a -ffast-math object); the statement's results are claimed for every such state because the unchanged implementation is integer code / explicit-immediate F16C and was measured to be invariant. "
         "Flavours and rounding directions are separate dimensions (no cross product); the sanitizer build runs in the default environment only",
         "fma: the 2^48 triples are not exhausted; the claim is exactly the two stated families",
         "dynamic rounding mode: the reference is integer arithmetic and does not depend on it; the double-based self-test and the information-only conversions run under FE_TONEAREST only; the shards under a directed mode use separate builds compiled with -frounding-math",
-        "exception flags/errno (HALF_ERRHANDLING_*), rounding styles other than the default round-to-nearest, ++/--, literals and stream I/O are outside this check; mixed-operand operators and compound assignment are judged only for T values that binary16 represents exactly (the T -> half conversion of other values is the float -> half sweep / information-only double rounding)",
+        "exception flags/errno (HALF_ERRHANDLING_*), rounding styles other than the default round-to-nearest, ++/--, stream I/O and the parsing of literal tokens are outside this check (operator""_h is called as a function on run-time long doubles); mixed-operand operators and compound assignment are judged only for T values that binary16 represents exactly (the T -> half conversion of other values is the float -> half sweep / information-only double rounding)",
         "one toolchain: g++ 12, x86-64, -O2 (and -O1 under ASan)",
     ]
 
